@@ -14,7 +14,7 @@ RULE = ("case = (document tree as JSON, xml flag); the builder writes the text a
         "interior positions, two-valued on element boundaries). Non-trivial: position inside an element of depth ≥ 2 in a document with ≥ 1 noise construct; "
         "distinct by (document, position).")
 ASSUME = ["documents are well formed; attribute names are XML names or the documented Angular/React forms; closing tags are written `</name>` without blanks",
-          "script/style are not used in XML-mode documents"]
+          "script/style bodies are skipped in XML mode as well (the matcher's default `special` option applies to both modes)"]
 
 
 def chain(e):
